@@ -16,6 +16,7 @@ from vlib import common
 from checks import _signal as S
 
 LEVEL = "proof"
+COVER_RULE = 'covering set (checks/_signal.py cover): a seeded pool of candidate configurations - %s - is planned by the REAL library; every candidate is labelled with its plan class (per stage: half-band / dft stage with F-domain or time-domain rate change, decimation grid aligned to block_len or not / poly-phase order) and its knob; one member of EVERY (plan class, knob) pair is measured, cheapest implementation periods first, members rotating with the seed; the run reports a violation when a required planner path or engine (REQUIRED_CLASSES, REQUIRED_ORDERS, cr32 / cr32s / cr64 / cr64s) is not hit. '
 
 
 def lim2(bits):
@@ -227,22 +228,22 @@ def run(ctx):
     for name in miss:
         ctx.violation("coverage: no measured configuration of this run went through the planner path `%s` (the covering pool no longer produces it)"
                       % name, {"missing_class": name, "classes_hit": sorted(classes_hit)}, no_input=True)
-    ctx.count("f1_signature_configurations_set_aside", len(f1_seen))
-    for txt in S.pool_map(probe_f1_image, [r["cfg"] for r in f1_seen[:4]]):
-        if txt and "F1" in S.ACTIVE:
-            ctx.known("F1", txt)
-        elif txt:
-            ctx.violation("C02: " + txt, {"finding": "F1 is not listed as known for this property any more", "what": txt}, no_input=True)
+    S.report_f1(ctx, f1_seen, probe_f1_image, "C02")
 
     ctx.cov["worst_margins"] = {k: round(v, 5) for k, v in sorted(worst.items())}
     ctx.cov["worst_margins_note"] = "ratios measured/bound (< 1 holds); bound = 2^-bits of the tone's amplitude (6.02 dB per bit)"
     ctx.count("evaluations", measured + n_fits)
     ctx.cov["distinct_nontrivial"] = len(sigs)
-    ctx.cov["rule"] = ("rows: fixed core of 6 rational configurations plus seeded random draws from ratio class x recipe/flags x engine (thorough: the "
-                       "whole product, all M_P phases up to the cap, larger ones counted under `skipped`); the stop-band grid runs from the "
-                       "configured stop-band start to the input Nyquist limit; end-to-end tones: seeded random configurations incl. irrational "
-                       "ratios and random stop-band / in-band frequencies. distinct_nontrivial = distinct (engine, exported stage plan, precision, "
-                       "stop-band start) tuples actually measured.")
+    ctx.cov["rule"] = ("rows: fixed core of 6 rational configurations plus the " + COVER_RULE % (
+                       "coprime ratios a:b up to 12, halving chains, large up-sampling and audio rates x 14 recipes (LQ..32-bit, LSR presets, steep) x engine "
+                       "(SIMD / portable, SOXR_DOUBLE_PRECISION) x knob in {recipe as is, phase_response 0 / 25 / 75 / 100 by field or recipe flag, "
+                       "stopband_begin < 1, stopband_begin > 1, passband_end, roll-off class, fractional precision 15..33}") +
+                       "The stop-band grid of every member runs from the CONFIGURED stop-band start to the input Nyquist limit (with stopband_begin < 1 "
+                       "this includes the stretch below the lower Nyquist limit where nothing aliases; its level is also listed on its own); up-sampling "
+                       "members: every image line of every in-band grid tone. End to end: the same covering over irrational / interpolated ratios: "
+                       "down-sampling members get a sum of 8 stop-band tones stratified over the whole band (bound 2^-bits x sum of amplitudes; on failure "
+                       "each tone is re-run alone), up-sampling members two in-band tones whose image lines are measured. "
+                       "distinct_nontrivial = distinct (engine, exported stage plan, precision, stop-band start) tuples actually measured.")
     ctx.assume(
         "MEASUREMENT, not proof: max_r |c_r(w)| <= 2^-bits (down-sampling) and image lines <= 2^-bits (up-sampling) are float64 evaluations on "
         "rows obtained from the real code for SAMPLED configurations; nothing proves that the designed filters reject the stop band",
@@ -251,7 +252,12 @@ def run(ctx):
         "the real kernels are assumed linear and (L_P, M_P)-shift covariant beyond the start-up horizon (C12); rows are assembled from impulses "
         "at different stream positions under that assumption",
         "irrational ratios and engines' rounding noise are explored by sampled end-to-end tones only",
-        "configurations matching known finding F1 (non-linear phase + power-of-two-L DFT stage, L >= 8) are skipped and counted",
+        "plans matching known finding F1 (a dft stage with power-of-two L not dividing block_len) receive no measurement signal: they are set aside, "
+        "counted, and up to 4 of them are probed in a child process (KNOWN-FINDING line when the misbehaviour shows)",
+        "the stop band is read as the property states it: everything at or above the CONFIGURED stop-band start up to the input Nyquist limit, "
+        "also where it would not alias (stopband_begin < 1) and also when up-sampling; with stopband_begin > 1 it starts at stopband_begin",
+        "known findings of the pinned tree (known_findings.d/signal.json: F-PH1, F-SG2, F-SG3) are recognised by a configuration/plan signature AND a "
+        "symptom bound; their margins are listed separately under worst_margins ([... signature])",
     )
     if broken and not ctx.violations:
         ctx.violation("Lean obligations of C02 no longer check: " + "; ".join(broken)[:1500],
@@ -273,7 +279,7 @@ def job_stop(args):
             if not info.get("engine", "").startswith("cr") or S.bits_of(info) < 15:
                 return {"cfg": c, "label": S.cfg_label(c), "skipped": "property does not speak (precision < 15 bits)"}
             if S.f1_exact(info):
-                return {"cfg": c, "label": S.cfg_label(c), "skipped": "known finding F1 signature", "f1": True}
+                return {"cfg": c, "label": S.cfg_label(c), "skipped": "known finding F1 signature", "f1": True, "f1_linear": info["q"]["phase"] == 50}
             d = S.stop_multitone_job(c, kw["_multi"], nfit=kw["nfit"])
             d.update(cfg=c, label=S.cfg_label(c), seed=kw["_multi"])
             return d
